@@ -110,6 +110,15 @@ CHECKS = {
             "state >= every acknowledged transition, its search is answered from the one acknowledged index.",
             "Whole-message granularity; settle uses a short real sleep (can hide, never invent an overlap); in-process server with a module-local asyncio proxy.",
             "DESIGN.md §3 C12"),
+    "C13": ("fault_enumeration", "crash injection at every numbered file-system mutation (fs interposition in a real subprocess, os._exit before/after the event), then recovery + full workflow with the real code on the same directory",
+            "For each scheme (quick: PiBas + CT14; thorough: all nine), component (server handling config / upload incl. the "
+            "state rewrite at connection cleanup; client create-service, generate-key, encrypt, upload-config+ack+close, "
+            "upload-index+ack+close) a count run numbers every mkdir / open-for-write / write / unlink / replace under "
+            "~/.sse; then one subprocess run per (event k, before|after) is cut exactly there. The peer and the recovery "
+            "(reconnect, redo what the reported state asks for, finish the workflow, search every keyword) use the real "
+            "client and server code on the crashed directory. Every event of every enumerated step is covered.",
+            "Crash = process death at a Python-level file operation with writes flushed at once; no torn writes / lost page cache (the code has no fsync); recovery policy stated in DESIGN.md.",
+            "DESIGN.md §3 C13"),
     "C14": ("exploration", "post-condition monitors + independent recomputation of every ciphertext (PKCS7 + AES-CBC with the observed IV)",
             "The real AES-CBC wrapper (obtained by name, as the schemes do) is driven with all message lengths 0..80 "
             "for each key length and several keys, random lengths to 4096 biased to block boundaries, related keys, "
